@@ -108,3 +108,22 @@ try:
                         lean_modules=["BumpVerif.Props.C19", "BumpVerif.Props.C13"], drivers=["Driver.Main", "Driver.VecMain"])
 except ImportError:
     pass
+
+
+# ---------------------------------------------------------------------------------------------
+# function bodies regenerated from /repo/src by tools/rs2lean.py: the equivalence theorems (generated body = hand
+# model) that each property's theorems rest on are obligations of that property
+# ---------------------------------------------------------------------------------------------
+_G = "BumpVerif.Props.GenFn"
+GEN_MODS = {
+    "C01": ["Fast", "Realloc"], "C02": ["Realloc"], "C03": ["Details"], "C04": ["Arith", "Fast", "Realloc"],
+    "C06": ["Limit"], "C07": ["Limit", "Details"], "C08": ["Limit", "Details"],
+    "C09": ["Arith", "Fast", "Details", "Realloc"], "C10": ["Footer"], "C11": ["Footer", "Realloc"], "C12": ["Realloc"],
+    "C18": ["Details", "Fast", "Limit"], "C19": ["Arith", "Details"], "C20": ["Footer"],
+}
+for _p, _ms in GEN_MODS.items():
+    if _p not in SPECS:
+        continue
+    _sp = SPECS[_p]
+    _base = _sp.get("lean_modules") or ([_sp["lean_module"]] if _sp.get("lean_module") else [])
+    _sp["lean_modules"] = list(_base) + [_G + m for m in _ms if _G + m not in _base]
